@@ -113,6 +113,16 @@ Proof.
   symmetry. apply forallb_forall. intros c Hc. unfold ascii_text in H. rewrite Forall_forall in H. specialize (H c Hc). lia.
 Qed.
 
+(* octet strings: any octets, one per character *)
+Definition octet_text (s : list Z) : Prop := Forall (fun c => 0 <= c < 256) s.
+Lemma latin1_encode_text s : octet_text s -> latin1_encode s = Ok s.
+Proof.
+  intros H. unfold latin1_encode. replace (forallb (fun c => (0 <=? c) && (c <? 256)) s) with true; [reflexivity|].
+  symmetry. apply forallb_forall. intros c Hc. unfold octet_text in H. rewrite Forall_forall in H. specialize (H c Hc). lia.
+Qed.
+Lemma ascii_is_octet_text s : ascii_text s -> octet_text s.
+Proof. unfold ascii_text, octet_text. apply Forall_impl. intros c Hc. lia. Qed.
+
 (* C-octet-string parameters carry a terminating NUL, octet-string parameters do not *)
 Theorem cstr_tlv_layout tag s :
   In (tag, (KCStr, 0)) spec_tlv_table -> ascii_text s -> Z.of_nat (length s) < 65535 ->
@@ -128,7 +138,7 @@ Proof.
 Qed.
 
 Theorem ostr_tlv_layout tag size s :
-  In (tag, (KOStr, size)) spec_tlv_table -> tag <> TLV_MESSAGE_PAYLOAD -> ascii_text s -> Z.of_nat (length s) <= 65535 ->
+  In (tag, (KOStr, size)) spec_tlv_table -> tag <> TLV_MESSAGE_PAYLOAD -> octet_text s -> Z.of_nat (length s) <= 65535 ->
   op_tlv {| op_tag := tag; op_val := TStr s |} = Ok (spec_tlv tag s).
 Proof.
   intros Hin Hnp Hs Hl. pose proof (row_ok_In _ Hin) as R. pose proof (table_tag_range _ Hin) as Htag. cbn [fst] in Htag. cbn [row_ok] in R.
@@ -136,7 +146,7 @@ Proof.
   apply andb_prop in R as [R R4]. apply andb_prop in R as [R R3]. apply andb_prop in R as [R1 R2]. apply Z.eqb_eq in R2.
   apply negb_true_iff in R3, R4.
   unfold op_tlv. rewrite (op_length_str tag s R2). cbn [op_tag op_val]. rewrite R3, R4.
-  destruct (tag_data_type tag); try discriminate. rewrite (ascii_encode_text s Hs). cbn [rbind].
+  destruct (tag_data_type tag); try discriminate. rewrite (latin1_encode_text s Hs). cbn [rbind].
   cbv iota. rewrite (packH_ok tag Htag), (packH_ok (Z.of_nat (length s)) ltac:(lia)). reflexivity.
 Qed.
 
